@@ -966,12 +966,23 @@ void pool_case(uint64_t, vh::Rng &r) {
 // =============================================================================================
 // Fd
 // =============================================================================================
+int g_saved_stdout = -1, g_saved_stderr = -1;    // duplicates taken at start-up (see FdWorld::verify)
+
 struct FdWorld {
-    enum Kind { K_FAKE_FUNC = 0, K_REAL_DEFAULT = 1, K_REAL_FUNC = 2, K_INVALID = 3 };
+    //! K_NEG_FUNC: a negative value ("no descriptor") together with a recording close function: must never be closed
+    enum Kind { K_FAKE_FUNC = 0, K_REAL_DEFAULT = 1, K_REAL_FUNC = 2, K_INVALID = 3, K_NEG_FUNC = 4 };
     struct Desc {
         Kind kind; int fdnum; int refs; bool open;
         ino_t ino; int func_calls; int func_wrong_fd; bool closed_explicitly;
+        bool never_open;      // negative value: there is nothing to close, ever
     };
+    //! value handed to Fd for the next K_FAKE_FUNC / K_NEG_FUNC descriptor (set by the case driver); values may repeat
+    //! between descriptors - each recording close function knows which descriptor record it belongs to
+    std::function<int(int)> pick_fake_value;
+    std::function<int(int)> pick_negative_value;
+    bool want_stdin_slot = false;         // next real descriptor: try to make it descriptor number 0
+    int saved_stdin = -1;
+    bool used_small_fake = false;         // a fake value 1 or 2 is in play: watch the real stdout / stderr
     std::vector<std::unique_ptr<Fd> > var;
     std::vector<int> vd;                  // per variable: index into descs, or -1 when the handle holds nothing
     std::vector<Desc> descs;
@@ -981,6 +992,9 @@ struct FdWorld {
     size_t max_refs = 0;
 
     explicit FdWorld(size_t n) : var(n), vd(n, -1) {}
+    ~FdWorld() {
+        if (saved_stdin >= 0) { dup2(saved_stdin, 0); ::close(saved_stdin); saved_stdin = -1; }   // give descriptor 0 back
+    }
 
     std::string vname(size_t i) const { return vh::fmt("v%zu", i); }
 
@@ -997,17 +1011,38 @@ struct FdWorld {
     //! create a descriptor record; returns its index. Real kinds open a pipe and keep the read end.
     int new_desc(Kind k) {
         Desc D; D.kind = k; D.refs = 1; D.open = true; D.ino = 0; D.func_calls = 0; D.func_wrong_fd = 0; D.closed_explicitly = false;
-        if (k == K_FAKE_FUNC) D.fdnum = next_fake++;
-        else if (k == K_INVALID) { D.fdnum = -1; D.open = false; }
+        D.never_open = false;
+        if (k == K_FAKE_FUNC) {
+            D.fdnum = pick_fake_value ? pick_fake_value((int)descs.size()) : next_fake++;
+            if (D.fdnum < 0) D.fdnum = next_fake++;
+            if (D.fdnum == 0) CNT("fd_value_zero_desc");
+            else if (D.fdnum <= 2) { CNT("fd_value_one_or_two_desc"); used_small_fake = true; }
+            else if (D.fdnum == std::numeric_limits<int>::max()) CNT("fd_value_int_max_desc");
+        }
+        else if (k == K_INVALID) { D.fdnum = -1; D.open = false; D.never_open = true; }
+        else if (k == K_NEG_FUNC) {
+            D.fdnum = pick_negative_value ? pick_negative_value((int)descs.size()) : -1;
+            if (D.fdnum >= 0) D.fdnum = -1;
+            D.open = false; D.never_open = true;
+            CNT("fd_negative_value_with_close_func");
+        }
         else {
+            // optionally free descriptor number 0 first, so that the pipe's read end becomes descriptor 0 (restored in ~FdWorld)
+            if (want_stdin_slot && saved_stdin < 0) {
+                int sv = dup(0);
+                if (sv >= 0) { saved_stdin = sv; ::close(0); }
+            }
+            want_stdin_slot = false;
             int p[2];
             if (pipe(p) != 0) { fprintf(stderr, "VH-FATAL: pipe-failed errno=%d\n", errno); abort(); }
             ::close(p[1]);
             struct stat st; fstat(p[0], &st);
             D.fdnum = p[0]; D.ino = st.st_ino;
+            if (D.fdnum == 0) CNT("fd_value_zero_real_desc");
         }
         descs.push_back(D);
-        vh::counter(k == K_FAKE_FUNC ? "fd_desc_fake_func" : k == K_REAL_DEFAULT ? "fd_desc_real_default" : k == K_REAL_FUNC ? "fd_desc_real_func" : "fd_desc_invalid");
+        vh::counter(k == K_FAKE_FUNC ? "fd_desc_fake_func" : k == K_REAL_DEFAULT ? "fd_desc_real_default" : k == K_REAL_FUNC ? "fd_desc_real_func" :
+                    k == K_NEG_FUNC ? "fd_desc_negative_func" : "fd_desc_invalid");
         return (int)descs.size() - 1;
     }
 
@@ -1019,6 +1054,9 @@ struct FdWorld {
             D.open = false; closed_now.push_back(d);
             saw_last_copy_close = true; CNT("fd_close_on_last_release");
             if (by_assign) { saw_assign_release = true; CNT("fd_close_by_assignment"); }
+            if (D.fdnum == 0) CNT("fd_value_zero_released_by_last_copy");
+            else if (D.fdnum <= 2) CNT("fd_value_one_or_two_released_by_last_copy");
+            else if (D.fdnum == std::numeric_limits<int>::max()) CNT("fd_value_int_max_released_by_last_copy");
         }
     }
     void model_acquire(int d) {
@@ -1034,7 +1072,7 @@ struct FdWorld {
         d_out = new_desc(k);
         Desc &D = descs[(size_t)d_out];
         Lib l;
-        if (k == K_FAKE_FUNC) return new Fd(D.fdnum, recorder(d_out, false));
+        if (k == K_FAKE_FUNC || k == K_NEG_FUNC) return new Fd(D.fdnum, recorder(d_out, false));
         if (k == K_REAL_FUNC) return new Fd(D.fdnum, recorder(d_out, true));
         return new Fd(D.fdnum);
     }
@@ -1046,7 +1084,7 @@ struct FdWorld {
         int d; Fd *f = make(k, d);
         var[i].reset(f); vd[i] = d;
         g->sig.add(31); g->sig.add(i); g->sig.add((uint64_t)k);
-        logop(vh::fmt("v%zu=Fd(d%d:%s%d)", i, d, k == K_FAKE_FUNC ? "fake" : k == K_REAL_FUNC ? "pipe+func" : k == K_INVALID ? "" : "pipe", descs[(size_t)d].fdnum));
+        logop(vh::fmt("v%zu=Fd(d%d:%s%d)", i, d, k == K_FAKE_FUNC ? "fake" : k == K_REAL_FUNC ? "pipe+func" : k == K_INVALID ? "" : k == K_NEG_FUNC ? "neg+func" : "pipe", descs[(size_t)d].fdnum));
     }
     void op_copy_construct(size_t i, size_t j) {
         { Lib l; var[i].reset(new Fd(*var[j])); }
@@ -1086,7 +1124,7 @@ struct FdWorld {
         Desc &D = descs[(size_t)d];
         {
             Lib l;
-            if (k == K_FAKE_FUNC) *var[i] = Fd(D.fdnum, recorder(d, false));
+            if (k == K_FAKE_FUNC || k == K_NEG_FUNC) *var[i] = Fd(D.fdnum, recorder(d, false));
             else if (k == K_REAL_FUNC) *var[i] = Fd(D.fdnum, recorder(d, true));
             else *var[i] = Fd(D.fdnum);
         }
@@ -1113,6 +1151,7 @@ struct FdWorld {
             if (D.open) {
                 D.open = false; D.closed_explicitly = true; closed_now.push_back(vd[i]);
                 CNT("fd_explicit_close");
+                if (D.fdnum == 0) CNT("fd_value_zero_explicit_close");
                 if (D.refs > 1) { saw_explicit_close_shared = true; CNT("fd_explicit_close_while_shared"); }
             } else CNT("fd_close_again_noop");
         }
@@ -1132,6 +1171,8 @@ struct FdWorld {
             if (!var[i]) continue;
             int expect = -1;
             if (vd[i] >= 0 && descs[(size_t)vd[i]].open) expect = descs[(size_t)vd[i]].fdnum;
+            // what get()/isNull() answer for a stored negative value other than -1 is not pinned by the property: not judged
+            if (vd[i] >= 0 && descs[(size_t)vd[i]].never_open && descs[(size_t)vd[i]].fdnum != -1) continue;
             int got; bool isnull;
             { Lib l; got = var[i]->get(); isnull = var[i]->isNull(); }
             CHK(got == expect, "fd/get/wrong-descriptor", "v%zu.get()=%d, the model says %d", i, got, expect);
@@ -1151,8 +1192,29 @@ struct FdWorld {
         }
         closed_now.clear();
         if (g->failed) return;
+        if (used_small_fake) {
+            // fake values 1 and 2 must only ever reach the recording close function; if the library really close()d them the
+            // report channel is gone: put it back first, then report
+            for (int fdn = 1; fdn <= 2; ++fdn) {
+                int sv = fdn == 1 ? g_saved_stdout : g_saved_stderr;
+                if (sv >= 0 && fcntl(fdn, F_GETFD) == -1 && errno == EBADF) {
+                    dup2(sv, fdn);
+                    fail("fd/close/system-close-on-injected-descriptor",
+                         vh::fmt("descriptor %d of the process was closed: the library called ::close() on a value that came with its own close function", fdn));
+                    return;
+                }
+            }
+        }
         for (size_t d = 0; d < descs.size(); ++d) {
             Desc &D = descs[d];
+            if (D.kind == K_NEG_FUNC) {
+                if (D.func_calls != 0) {
+                    fail("fd/close/negative-value-closed", vh::fmt("the close function of d%zu ran %d time(s) although the handle was built on the "
+                                                                    "negative value %d, which is no descriptor", d, D.func_calls, D.fdnum));
+                    return;
+                }
+                continue;
+            }
             if (D.kind == K_FAKE_FUNC || D.kind == K_REAL_FUNC) {
                 int expect = D.open ? 0 : 1;
                 if (D.func_calls != expect) {
@@ -1203,9 +1265,24 @@ void fd_case(uint64_t, vh::Rng &r) {
         size_t nv = 2 + r.below(5);   // 2..6 handle variables
         FdWorld w(nv);
         int nops = 30 + (int)r.below(120);
+        // descriptor values for the recording close functions: the boundary values first, 0 most often
+        w.pick_fake_value = [&](int) -> int {
+            static const int vals[] = {0, 0, 0, 1, 2, 3, 12, 13, 255, 1023, 1024, 65535, std::numeric_limits<int>::max(), -1 /* unique */, -1};
+            return r.pick(vals);
+        };
+        w.pick_negative_value = [&](int) -> int {
+            static const int vals[] = {-1, -1, -2, -100, std::numeric_limits<int>::min()};
+            return r.pick(vals);
+        };
+        const bool stdin_case = r.chance(1, 4);     // in a quarter of the cases one real pipe end gets descriptor number 0
+        bool stdin_done = false;
         auto any_kind = [&]() -> FdWorld::Kind {
-            switch (r.below(8)) { case 0: case 1: case 2: return FdWorld::K_FAKE_FUNC; case 3: case 4: return FdWorld::K_REAL_DEFAULT;
-                                  case 5: case 6: return FdWorld::K_REAL_FUNC; default: return r.chance(1, 3) ? FdWorld::K_INVALID : FdWorld::K_FAKE_FUNC; }
+            FdWorld::Kind k;
+            switch (r.below(9)) { case 0: case 1: case 2: k = FdWorld::K_FAKE_FUNC; break; case 3: case 4: k = FdWorld::K_REAL_DEFAULT; break;
+                                  case 5: case 6: k = FdWorld::K_REAL_FUNC; break; case 7: k = FdWorld::K_NEG_FUNC; break;
+                                  default: k = r.chance(1, 3) ? FdWorld::K_INVALID : FdWorld::K_FAKE_FUNC; break; }
+            if (stdin_case && !stdin_done && (k == FdWorld::K_REAL_DEFAULT || k == FdWorld::K_REAL_FUNC)) { w.want_stdin_slot = true; stdin_done = true; }
+            return k;
         };
         for (int k = 0; k < nops && !c.failed; ++k) {
             size_t i = r.below(nv), j = r.below(nv);
@@ -1241,6 +1318,7 @@ void fd_case(uint64_t, vh::Rng &r) {
 }
 
 // ---- exhaustive Fd histories: 3 handles, all start as Fd() -----------------------------------------
+// (the k-th descriptor created in a history has the value 0, 1, INT_MAX, 2, 12 for k = 0..4)
 // alphabet (36): v_i = Fd(new fake descriptor, recorder) [3]; v_i = v_j [9]; v_i = move(v_j) [9]; swap(v_i,v_j) i<j [3];
 // v_i.reset() [3]; v_i.close() [3]; delete v_i and copy-construct it anew from v_j, i != j [6]
 const int FDX_ALPHA = 36;
@@ -1251,6 +1329,11 @@ bool fdx_run(uint64_t idx, int depth, bool record, Ctx &c) {
     bool nt;
     {
         FdWorld w(3);
+        // the n-th descriptor of a history gets the n-th of these values: 0 for the first, so every history exercises it
+        w.pick_fake_value = [](int n) -> int {
+            static const int vals[] = {0, 1, std::numeric_limits<int>::max(), 2, 12};
+            return n < 5 ? vals[n] : -1;
+        };
         for (size_t i = 0; i < 3; ++i) w.op_new_default(i);
         uint64_t x = idx;
         for (int d = 0; d < depth && !c.failed; ++d) {
@@ -1422,6 +1505,7 @@ int main(int argc, char **argv) {
         printf("%llu\n", (unsigned long long)ipow(vh::st().args.str("which", "cabinet") == "fd" ? FDX_ALPHA : CABX_ALPHA, depth));
         return 0;
     }
+    g_saved_stdout = dup(1); g_saved_stderr = dup(2);
     trk::install();
     if (trk::available) CNT("heap_tracker_installed");
     return vh::run(argc, argv, [&](uint64_t idx, vh::Rng &r) {
